@@ -172,7 +172,96 @@ def run_index_case(case):
     return out
 
 
-RUNNERS = {"query": run_query_case, "index": run_index_case}
+def run_mode_case(case):
+    """Family mode (C08): interleavings of block entry/exit with iterator
+    creation/advance/close/drop/drain; after every step the publicly visible
+    mode, context-stack depth and the behaviour of symbol construction,
+    predicate calls and operators are recorded."""
+    from entity_query_language import let, an, entity, symbolic_mode, rule_mode
+    from entity_query_language.enums import EQLMode
+    reset_library()
+    objs = [world.A(n=k + 1) for k in range(case.get("nrows", 2))]
+    queries = {}
+    for i in range(1, case.get("niter", 2) + 1):
+        x = let(world.A, domain=objs)
+        with symbolic_mode():
+            queries[i] = an(entity(x, x.n >= 0))
+    ctx_var = let(world.A, domain=objs)
+    with symbolic_mode():
+        ctx_query = an(entity(ctx_var, ctx_var.n >= 0))
+    probe_var = let(world.A, domain=objs)
+    blocks, its = [], {}
+
+    def observe():
+        mode = "rule" if in_symbolic_mode(EQLMode.Rule) else ("query" if in_symbolic_mode() else "none")
+        r = world.A(n=1)
+        sym = "instance" if type(r) is world.A else "symbolic"
+        p = world.p_true(1)
+        pred = "value" if p is True else "symbolic"
+        try:
+            probe_var == 1
+            oper = "built"
+        except AttributeError:
+            oper = "rejected"
+        return {"mode": mode, "depth": len(SymbolicExpression._symbolic_expression_stack_), "sym": sym, "pred": pred,
+                "oper": oper}
+
+    out = dict(case)
+    out["evs"] = []
+    for ev in case["evs"]:
+        rec = dict(ev)
+        rec["res"] = "-"
+        op = ev["op"]
+        try:
+            if op == "enter":
+                kind = ev["kind"]
+                if kind == "withq":
+                    ctx_query.__enter__()
+                    blocks.append(("withq", ctx_query))
+                else:
+                    cm = {"sym": lambda: symbolic_mode(), "rule": lambda: rule_mode(),
+                          "symq": lambda: symbolic_mode(ctx_query), "ruleq": lambda: rule_mode(ctx_query)}[kind]()
+                    cm.__enter__()
+                    blocks.append((kind, cm))
+            elif op == "exit":
+                kind, cm = blocks.pop()
+                if ev["how"] == "exception":
+                    err = ValueError("raised inside the block")
+                    cm.__exit__(ValueError, err, None)
+                else:
+                    cm.__exit__(None, None, None)
+            elif op == "new":
+                its[ev["i"]] = queries[ev["i"]].evaluate()
+            elif op == "next":
+                try:
+                    next(its[ev["i"]])
+                    rec["res"] = "row"
+                except StopIteration:
+                    rec["res"] = "stop"
+            elif op == "close":
+                its[ev["i"]].close()
+            elif op == "drop":
+                del its[ev["i"]]
+            elif op == "drain":
+                list(its[ev["i"]])
+            else:
+                raise ValueError(op)
+        except Exception as e:
+            rec["res"] = "exc:" + exc_name(e)
+        rec.update(observe())
+        out["evs"].append(rec)
+    its.clear()
+    while blocks:
+        kind, cm = blocks.pop()
+        try:
+            cm.__exit__(None, None, None)
+        except Exception:
+            pass
+    reset_library()
+    return out
+
+
+RUNNERS = {"query": run_query_case, "index": run_index_case, "mode": run_mode_case}
 
 
 def run_case(case):
